@@ -182,8 +182,9 @@ def qn (v : View) (n : Nat) : String :=
   let l (o : Option (List Nat)) := showOpt (o.map showNats)
   -- the iterators: the client loop over the modelled iterator object (`Cursor.drain`); `ub` = `RowQ.iter`'s
   let it (f : Row → List Nat) := showQ (match RowQ.iter f r with | .ok l => .ok (Cursor.mk0 l).drain | x => x)
+  -- on an absent node each of the eight factories raises (GlobalGraph.h `rowOf_`, as repaired)
   let its := match r with
-    | none => "ub"
+    | none => " / ".intercalate (List.replicate 8 "exc:bpp")
     | some _ =>
       let four := s!"{it (fun r => AL.keys r.out)} / {it (fun r => AL.keys r.inn)} / {it (fun r => AL.vals r.out)} / {it (fun r => AL.vals r.inn)}"
       four ++ " / " ++ four
@@ -237,10 +238,10 @@ def oqn (ov : OView) (a : Obj) : String :=
   let nl (q : Option (List Nat)) := showOpt (q.map (fun l => showObjs (o.nodesFromGids l)))
   let el (q : Option (List Nat)) := showOpt (q.map (fun l => showObjs (o.edgesFromGids l)))
   let its := match gid with
-    | none => "exc:bpp"
+    | none => " / ".intercalate (List.replicate 8 "exc:bpp")
     | some _ =>
       match r with
-      | none => "ub"
+      | none => " / ".intercalate (List.replicate 8 "exc:bpp")
       | some row =>
         let oit (l : List Nat) (f : Nat → Option Obj) : String := showObjs (OCursor.mk (Cursor.mk0 l) f).drain
         let four := s!"{oit (AL.keys row.out) o.nodeFromGid} / {oit (AL.keys row.inn) o.nodeFromGid} / " ++
@@ -498,6 +499,17 @@ def step (st : St) (op : List String) (impl : Option (List String)) : St × Stri
   -- translation object -> graph id through the model's maps of observer k (for the reference)
   let gid (k : Nat) (a : Obj) : Option Nat := (w.getObs k).bind (fun o => AL.find a o.Ng)
   let hasE (k : Nat) (x : Option Obj) : Bool := match w.getObs k, x with | some o, some x => o.hasEdge x | _, _ => false
+  -- a null pointer (`-`) where an object is required: refused, nothing changes (only the edge object of
+  -- `o.link` / `o.createNodeFrom`, their last argument, may be null)
+  let nullArg : Bool := match op with
+    | "o.link" :: _ :: a :: b :: _ => a == "-" || b == "-"
+    | "o.createNodeFrom" :: _ :: o :: a :: _ => o == "-" || a == "-"
+    | name :: _ :: args =>
+      ["o.createNode", "o.unlink", "o.deleteNode", "o.associateNode", "o.associateEdge", "o.dissociateNode", "o.dissociateEdge",
+       "o.setNodeIndex", "o.addNodeIndex", "o.setEdgeIndex", "o.addEdgeIndex", "o.setEdgeLinking", "o.setRoot"].contains name &&
+      args.contains "-"
+    | _ => false
+  if nullArg then omut st impl ((w.nullRefused (nat (op.getD 1 "0"))).str okS) keep else
   match op with
   | ["createNode"] =>
     mutOp st impl st.g.createNode toString (some sp.createNode) (fun r => toString r.1) (·.2)
